@@ -15,6 +15,7 @@ structure Base where
   author : String
   time : Int
   md : List (String × String) := []
+  nonce : String := ""        -- base64 text of the random bytes (no semantic role)
 deriving Repr, DecidableEq, Inhabited
 
 /-- The eight operation kinds of `entities/bug/operation.go` (iota 1..8 in that order). -/
